@@ -13,7 +13,7 @@ fn filter(s: Stat) -> bool {
 pub fn plan(tier: Tier) -> Plan {
     let mut checks: Vec<Box<dyn Check>> = Vec::new();
     let q = tier == Tier::Quick;
-    for (a, dq, dt) in [("small", 6, 8), ("dec", 6, 8), ("tail", 6, 9), ("off9", 6, 9), ("negoff", 7, 10), ("two13", 8, 14), ("ap", 6, 9)] {
+    for (a, dq, dt) in [("small", 6, 8), ("dec", 6, 8), ("tail", 6, 9), ("off9", 6, 9), ("negoff", 7, 10), ("two13", 8, 14), ("ap", 6, 9), ("tiny", 5, 7), ("large", 5, 7), ("mixed", 5, 7)] {
         let d = if q { dq } else { dt };
         checks.push(add_check::<Moments4>("C10", a, d, filter, true));
         checks.push(add_check::<M6>("C10", a, d, filter, true));
@@ -22,8 +22,13 @@ pub fn plan(tier: Tier) -> Plan {
         checks.push(add_check::<Skewness>("C10", a, d, filter, false));
         checks.push(add_check::<Kurtosis>("C10", a, d, filter, false));
     }
+    let (n, k) = if q { (2_000u64, 3usize) } else { (100_000, 4) };
+    for a in ["small", "tail", "off9", "tiny"] {
+        checks.push(super::longrun::lasso::<Moments4>("C10", a, k, 3, n, filter, true));
+        checks.push(super::longrun::lasso::<Variance>("C10", a, k, 3, n, filter, false));
+    }
     Plan {
-        rule: "every add-sequence over the alphabets small, dec, tail, off9, negoff, two13, ap (skew of both signs) up to the depth bound for Variance, Skewness, Kurtosis and define_moments! types of order 4, 6, 10; at every prefix (n from 0 upward, below-minimum sizes included) sample_variance, variance_of_mean, error, sample_skewness and sample_excess_kurtosis are judged against the textbook formulas evaluated on the exact central moments; WeightedMeanWithError's sample variance is judged in C08".into(),
+        rule: "long lasso streams (every word of length <= 3 repeated to n = 2000 / 1e5); AND every add-sequence over the alphabets small, dec, tail, off9, negoff, two13, ap (skew of both signs) up to the depth bound for Variance, Skewness, Kurtosis and define_moments! types of order 4, 6, 10; at every prefix (n from 0 upward, below-minimum sizes included) sample_variance, variance_of_mean, error, sample_skewness and sample_excess_kurtosis are judged against the textbook formulas evaluated on the exact central moments; WeightedMeanWithError's sample variance is judged in C08".into(),
         assumptions: common_assumptions(),
         checks,
     }
